@@ -24,14 +24,14 @@ ASSUMPTIONS = [
     "real sparse matrix with complex right-hand side is rejected by LinSolve by design (not generated)",
     "StaticCondensation: dofs that are neither main nor free are prescribed to zero (module docstring)",
 ]
-FLOORS = {"quick": {"cases_held": 600, "equations_checked": 2500}, "thorough": {"cases_held": 6000, "equations_checked": 25000}}
+FLOORS = {"quick": {"cases_held": 600, "equations_checked": 2500}, "thorough": {"cases_held": 20000, "equations_checked": 80000}}
 
 REALC = ["diag", "spd", "sym", "gen", "triu", "tril"]
 CPLXC = ["cdiag", "hpd", "herm", "csym", "cgen", "ctriu"]
 
 
 def plan(tier, seed):
-    reps = 2 if tier == "quick" else 20
+    reps = 2 if tier == "quick" else 60
     cases = []
     for r in range(reps):
         for cls in REALC + CPLXC + ["fe2", "fe3", "fepoisson"]:
